@@ -205,9 +205,18 @@ func (v *Version) String() string {
 
 // Compare compares this version with another Alpine version
 func (v *Version) Compare(other *Version) int {
-	// Handle invalid versions (no numeric components) - use string comparison
+	// Handle invalid versions (no numeric components). They have no place in the
+	// apk order, so they sort after every well-formed version and among themselves
+	// by their text; comparing a well-formed version by its text here would make
+	// the order inconsistent (1.9 < 1.10 < 1.5x < 1.9).
 	if v.numeric == nil || other.numeric == nil {
-		return strings.Compare(v.original, other.original)
+		if v.numeric != nil {
+			return -1
+		}
+		if other.numeric != nil {
+			return 1
+		}
+		return strings.Compare(strings.TrimSpace(v.original), strings.TrimSpace(other.original))
 	}
 
 	// 1. Compare numeric components (leading zeros are ignored - use actual numeric values)
